@@ -184,10 +184,15 @@ class Model:
                 tree = ast.parse(src, filename=p)
             except SyntaxError as e:
                 raise AnalysisError(f"{rel} does not parse: {e}")
-            set_parents(tree)
             mi = ModuleInfo(modname, p, rel, src, tree)
             self.modules[modname] = mi
         self.digest = h.hexdigest()[:16]
+        # private anchors that were renamed are found by role and given back their usual name (trees only)
+        from .canonical import canonicalise
+
+        self.renamed_anchors = canonicalise({name: mi.tree for name, mi in self.modules.items()})
+        for mi in self.modules.values():
+            set_parents(mi.tree)
         for mi in self.modules.values():
             self._index_module(mi)
 
